@@ -66,11 +66,355 @@ Qed.
 (* ------------------------------------------------------------------ *)
 Lemma acos_ratio_bounds h r : 0 <= h < r -> 0 < acos (h / r) <= PI / 2.
 Proof.
-  intros H. destruct (ratio_bounds h r H) as [X0 X1]. split.
+  intros H. destruct (ratio_bounds h r H) as [X0 X1]. assert (P := PI_RGT_0). split.
   - apply acos_bound_lt. lra.
-  - assert (P := PI_RGT_0).
-    destruct (Rle_dec (acos (h / r)) (PI / 2)) as [L|L]; auto.
-    assert (C : h / r < cos (PI / 2)).
-    { apply cos_gt_acos_aux. }
+  - destruct (Rle_dec (acos (h / r)) (PI / 2)) as [L|L]; auto.
+    assert (C : h / r < cos (PI / 2)) by (apply cos_lt_acos; lra).
     rewrite cos_PI2 in C. lra.
+Qed.
+
+Lemma cut_halfwidth_bounds h r : 0 <= h -> 0 <= cut_halfwidth h r <= PI / 2.
+Proof.
+  intros H. assert (P := PI_RGT_0). unfold cut_halfwidth. destruct (Rlt_dec h r).
+  - destruct (acos_ratio_bounds h r); lra.
+  - lra.
+Qed.
+
+(* right wall (direction 0): stays inside iff |theta| >= half-width *)
+Lemma wall_right h r t : 0 < r -> 0 <= h -> - PI <= t <= PI ->
+  (r * cos t <= h <-> cut_halfwidth h r <= Rabs t).
+Proof.
+  intros Hr Hh Ht. pose proof (Rabs_range t Ht) as A. unfold cut_halfwidth.
+  destruct (Rlt_dec h r) as [L|L].
+  - destruct (ratio_bounds h r (conj Hh L)) as [X0 X1].
+    rewrite (scaled_le h r (cos t) Hr), <- (cos_Rabs t), (cos_lt_acos (h / r) (Rabs t)) by lra. lra.
+  - pose proof (COS_bound t) as [_ C].
+    assert (r * cos t <= r * 1) by (apply Rmult_le_compat_l; lra). lra.
+Qed.
+
+(* left wall (direction PI): stays inside iff |theta| <= PI - half-width *)
+Lemma wall_left h r t : 0 < r -> 0 <= h -> - PI <= t <= PI ->
+  (- h <= r * cos t <-> Rabs t <= PI - cut_halfwidth h r).
+Proof.
+  intros Hr Hh Ht. pose proof (Rabs_range t Ht) as A. unfold cut_halfwidth.
+  destruct (Rlt_dec h r) as [L|L].
+  - destruct (ratio_bounds h r (conj Hh L)) as [X0 X1].
+    rewrite (scaled_ge h r (cos t) Hr), <- (cos_Rabs t), (cos_gt_acos (- (h / r)) (Rabs t)) by lra.
+    rewrite acos_opp. lra.
+  - pose proof (COS_bound t) as [C _].
+    assert (r * -1 <= r * cos t) by (apply Rmult_le_compat_l; lra). lra.
+Qed.
+
+(* top wall (direction PI/2) *)
+Lemma wall_top h r t : 0 < r -> 0 <= h -> - PI <= t <= PI ->
+  (r * sin t <= h <-> t <= PI / 2 - cut_halfwidth h r \/ PI / 2 + cut_halfwidth h r <= t).
+Proof.
+  intros Hr Hh Ht. pose proof (cut_halfwidth_bounds h r Hh) as B. assert (P := PI_RGT_0).
+  destruct (Rlt_dec t (- (PI / 2))) as [Q|Q].
+  - assert (S : sin t <= 0) by (apply sin_nonpos; lra).
+    assert (r * sin t <= r * 0) by (apply Rmult_le_compat_l; lra). split; intros _; lra.
+  - rewrite sin_as_cos, (wall_right h r (t - PI / 2) Hr Hh) by lra.
+    unfold Rabs. destruct (Rcase_abs (t - PI / 2)); lra.
+Qed.
+
+(* bottom wall (direction -PI/2) *)
+Lemma wall_bottom h r t : 0 < r -> 0 <= h -> - PI <= t <= PI ->
+  (- h <= r * sin t <-> t <= - (PI / 2) - cut_halfwidth h r \/ - (PI / 2) + cut_halfwidth h r <= t).
+Proof.
+  intros Hr Hh Ht.
+  assert (W := wall_top h r (- t) Hr Hh). rewrite sin_neg in W.
+  assert (E : r * - sin t <= h <-> - h <= r * sin t) by lra.
+  rewrite <- E, W by lra. lra.
+Qed.
+
+(* ------------------------------------------------------------------ *)
+(* (2) the directions inside the box are exactly the four gaps          *)
+(* ------------------------------------------------------------------ *)
+Theorem dir_inside_iff_gaps r hl hr hb ht t :
+  0 < r -> 0 <= hl -> 0 <= hr -> 0 <= hb -> 0 <= ht -> - PI < t <= PI ->
+  (dir_inside r hl hr hb ht t <-> in_arcs (gaps r hl hr hb ht) t).
+Proof.
+  intros Hr Hl Hrr Hb Htt Ht. unfold dir_inside, gaps. cbn [in_arcs].
+  assert (T : - PI <= t <= PI) by lra.
+  rewrite (wall_left hl r t Hr Hl T), (wall_right hr r t Hr Hrr T),
+          (wall_bottom hb r t Hr Hb T), (wall_top ht r t Hr Htt T).
+  pose proof (cut_halfwidth_bounds hl r Hl). pose proof (cut_halfwidth_bounds hr r Hrr).
+  pose proof (cut_halfwidth_bounds hb r Hb). pose proof (cut_halfwidth_bounds ht r Htt).
+  unfold Rabs. destruct (Rcase_abs t); lra.
+Qed.
+
+Theorem gaps_sorted r hl hr hb ht :
+  0 <= hl -> 0 <= hr -> 0 <= hb -> 0 <= ht -> arcs_sorted (- PI) (gaps r hl hr hb ht) PI.
+Proof.
+  intros Hl Hrr Hb Htt.
+  pose proof (cut_halfwidth_bounds hl r Hl). pose proof (cut_halfwidth_bounds hr r Hrr).
+  pose proof (cut_halfwidth_bounds hb r Hb). pose proof (cut_halfwidth_bounds ht r Htt).
+  unfold gaps. cbn [arcs_sorted]. unfold Rmax.
+  repeat match goal with |- context [Rle_dec ?a ?b] => destruct (Rle_dec a b) end; lra.
+Qed.
+
+(* ------------------------------------------------------------------ *)
+(* (3) the code's expression is r times the length of the gaps          *)
+(* ------------------------------------------------------------------ *)
+Lemma cap_term_halfwidth h r : cap_term h r = r * (2 * cut_halfwidth h r).
+Proof. unfold cap_term, cut_halfwidth, circle_cap_arclen. destruct (Rlt_dec h r); ring. Qed.
+
+Lemma sq_scaled h r : 0 < r -> h * h = (h / r) * (h / r) * (r * r).
+Proof. intros Hr. field. lra. Qed.
+
+(* the arcs cut off by two adjacent walls overlap iff the corner is inside the circle *)
+Lemma corner_inside_iff h1 h2 r : 0 <= h1 < r -> 0 <= h2 < r ->
+  (h1 * h1 + h2 * h2 < r * r <-> PI / 2 < acos (h1 / r) + acos (h2 / r)).
+Proof.
+  intros H1 H2. assert (Hr : 0 < r) by lra. assert (P := PI_RGT_0).
+  destruct (ratio_bounds h1 r H1) as [X0 X1]. destruct (ratio_bounds h2 r H2) as [Y0 Y1].
+  destruct (acos_ratio_bounds h1 r H1) as [A0 A1]. destruct (acos_ratio_bounds h2 r H2) as [B0 B1].
+  pose proof (cos_acos (h1 / r)) as Ex. pose proof (cos_acos (h2 / r)) as Ey.
+  rewrite (sq_scaled h1 r Hr), (sq_scaled h2 r Hr).
+  set (x := h1 / r) in *. set (y := h2 / r) in *.
+  set (a := acos x) in *. set (b := acos y) in *.
+  assert (Cx : cos a = x) by (apply Ex; lra). assert (Cy : cos b = y) by (apply Ey; lra).
+  assert (S0 : 0 <= sin b) by (apply sin_ge_0; lra).
+  assert (S2 : sin b * sin b + y * y = 1).
+  { pose proof (sin2_cos2 b) as Q. unfold Rsqr in Q. rewrite Cy in Q. exact Q. }
+  assert (Cs : cos (PI / 2 - b) = sin b) by apply cos_shift.
+  assert (RR : 0 < r * r) by (apply Rmult_lt_0_compat; lra).
+  assert (M : x * x * (r * r) + y * y * (r * r) < r * r <-> x * x + y * y < 1).
+  { split; intro H.
+    - apply Rmult_lt_reg_r with (r * r); auto. lra.
+    - apply Rmult_lt_compat_r with (r := r * r) in H; auto. lra. }
+  rewrite M. split; intro H.
+  - (* x < sin b, hence PI/2 - b < a *)
+    assert (L : x < sin b).
+    { destruct (Rlt_dec x (sin b)); auto.
+      assert (sin b * sin b <= x * x) by (apply Rmult_le_compat; lra). lra. }
+    rewrite <- Cx, <- Cs in L. apply cos_decreasing_0 in L; lra.
+  - assert (L : cos a < cos (PI / 2 - b)) by (apply cos_decreasing_1; lra).
+    rewrite Cx, Cs in L.
+    assert (x * x < sin b * sin b) by (apply Rmult_le_0_lt_compat; lra). lra.
+Qed.
+
+Lemma corner_term_halfwidth h1 h2 r : 0 < r -> 0 <= h1 -> 0 <= h2 ->
+  corner_term h1 h2 r = r * Rmax 0 (cut_halfwidth h1 r + cut_halfwidth h2 r - PI / 2).
+Proof.
+  intros Hr H1 H2. assert (P := PI_RGT_0). unfold corner_term, cut_halfwidth.
+  assert (Big : forall h k, 0 <= h -> 0 <= k -> ~ h < r -> ~ h * h + k * k < r * r).
+  { intros h k Hh Hk Nh C. assert (r * r <= h * h) by (apply Rmult_le_compat; lra).
+    assert (0 <= k * k) by (apply Rmult_le_pos; lra). lra. }
+  destruct (Rlt_dec h1 r) as [L1|L1]; destruct (Rlt_dec h2 r) as [L2|L2].
+  - pose proof (corner_inside_iff h1 h2 r (conj H1 L1) (conj H2 L2)) as C.
+    destruct (ratio_bounds h1 r (conj H1 L1)).
+    unfold circle_corner_arclen. rewrite (asin_acos (h1 / r)) by lra.
+    destruct C as [C1 C2].
+    destruct (Rlt_dec (h1 * h1 + h2 * h2) (r * r)) as [I|I].
+    + apply C1 in I. rewrite Rmax_right by lra. ring.
+    + assert (N : ~ PI / 2 < acos (h1 / r) + acos (h2 / r)) by (intro N; apply I, C2, N).
+      rewrite Rmax_left by lra. ring.
+  - destruct (Rlt_dec (h1 * h1 + h2 * h2) (r * r)) as [I|I].
+    + exfalso. apply (Big h2 h1 H2 H1 L2). lra.
+    + destruct (acos_ratio_bounds h1 r (conj H1 L1)). rewrite Rmax_left by lra. ring.
+  - destruct (Rlt_dec (h1 * h1 + h2 * h2) (r * r)) as [I|I].
+    + exfalso. apply (Big h1 h2 H1 H2 L1). lra.
+    + destruct (acos_ratio_bounds h2 r (conj H2 L2)). rewrite Rmax_left by lra. ring.
+  - destruct (Rlt_dec (h1 * h1 + h2 * h2) (r * r)) as [I|I].
+    + exfalso. apply (Big h1 h2 H1 H2 L1). lra.
+    + rewrite Rmax_left by lra. ring.
+Qed.
+
+Theorem arclen_2d_is_gap_length r hl hr hb ht :
+  0 < r -> 0 <= hl -> 0 <= hr -> 0 <= hb -> 0 <= ht ->
+  arclen_2d r hl hr hb ht = r * arcs_length (gaps r hl hr hb ht).
+Proof.
+  intros Hr Hl Hrr Hb Htt. unfold arclen_2d, gaps. cbn [arcs_length].
+  rewrite !cap_term_halfwidth, !corner_term_halfwidth by assumption.
+  set (aL := cut_halfwidth hl r). set (aR := cut_halfwidth hr r).
+  set (aB := cut_halfwidth hb r). set (aT := cut_halfwidth ht r).
+  match goal with |- ?lhs = _ =>
+    replace lhs with (r * (2 * PI - 2 * aL - 2 * aR - 2 * aB - 2 * aT
+                           + Rmax 0 (aL + aB - PI / 2) + Rmax 0 (aL + aT - PI / 2)
+                           + Rmax 0 (aR + aB - PI / 2) + Rmax 0 (aR + aT - PI / 2))) by ring end.
+  f_equal. unfold Rmax.
+  repeat match goal with |- context [Rle_dec ?a ?b] => destruct (Rle_dec a b) end; lra.
+Qed.
+
+(* ------------------------------------------------------------------ *)
+(* (4) length of a sorted interval list = integral of the indicator     *)
+(* ------------------------------------------------------------------ *)
+Lemma is_RInt_val (f : R -> R) (a b l l' : R) : is_RInt f a b l -> l = l' -> is_RInt f a b l'.
+Proof. intros H E. subst. exact H. Qed.
+
+Lemma is_RInt_const_on (f : R -> R) a b c :
+  a <= b -> (forall x, a < x < b -> f x = c) -> is_RInt f a b ((b - a) * c).
+Proof.
+  intros Hab H. apply is_RInt_ext with (f := fun _ => c).
+  - intros x Hx. rewrite Rmin_left, Rmax_right in Hx by lra. symmetry. apply H. lra.
+  - apply (is_RInt_const a b c).
+Qed.
+
+Lemma arcs_sorted_le l : forall lo hi, arcs_sorted lo l hi -> lo <= hi.
+Proof.
+  induction l as [|[a b] t IH]; intros lo hi S; cbn in S; auto.
+  destruct S as [La S]. apply IH in S. pose proof (Rmax_l a b). lra.
+Qed.
+
+Lemma in_arcs_bounds l : forall lo hi x, arcs_sorted lo l hi -> in_arcs l x -> lo <= x <= hi.
+Proof.
+  induction l as [|[a b] t IH]; intros lo hi x S I; cbn in *; [tauto|].
+  destruct S as [La S]. pose proof (Rmax_l a b). pose proof (Rmax_r a b).
+  pose proof (arcs_sorted_le _ _ _ S). destruct I as [I|I].
+  - lra.
+  - apply (IH _ _ _ S) in I. lra.
+Qed.
+
+Theorem arcs_length_is_integral l : forall lo hi (f : R -> R),
+  arcs_sorted lo l hi ->
+  (forall x, lo < x < hi -> (in_arcs l x -> f x = 1) /\ (~ in_arcs l x -> f x = 0)) ->
+  is_RInt f lo hi (arcs_length l).
+Proof.
+  induction l as [|[a b] t IH]; intros lo hi f S F.
+  - cbn in *. apply is_RInt_val with ((hi - lo) * 0); [|ring].
+    apply is_RInt_const_on; auto. intros x Hx. apply (F x Hx). tauto.
+  - cbn [arcs_sorted] in S. destruct S as [La S].
+    pose proof (Rmax_l a b) as Ma. pose proof (Rmax_r a b) as Mb.
+    pose proof (arcs_sorted_le _ _ _ S) as Mh.
+    assert (E : Rmax a b - a = Rmax 0 (b - a)).
+    { unfold Rmax. destruct (Rle_dec a b), (Rle_dec 0 (b - a)); lra. }
+    set (m := Rmax a b) in *.
+    assert (I1 : is_RInt f lo a ((a - lo) * 0)).
+    { apply is_RInt_const_on; auto. intros x Hx. apply F; [lra|].
+      cbn [in_arcs]. intros [C|C]; [lra|]. apply (in_arcs_bounds _ _ _ _ S) in C. lra. }
+    assert (I2 : is_RInt f a m ((m - a) * 1)).
+    { apply is_RInt_const_on; auto. intros x Hx. apply F; [lra|].
+      cbn [in_arcs]. left. unfold m, Rmax in Hx. destruct (Rle_dec a b); lra. }
+    assert (I3 : is_RInt f m hi (arcs_length t)).
+    { apply IH; auto. intros x Hx. destruct (F x) as [F1 F0]; [lra|]. cbn [in_arcs] in F1, F0.
+      split; intro C.
+      - apply F1. right. exact C.
+      - apply F0. intros [D|D]; [lra|auto]. }
+    apply is_RInt_val with (plus (plus ((a - lo) * 0) ((m - a) * 1)) (arcs_length t)).
+    + exact (is_RInt_Chasles (V := R_NormedModule) f lo m hi _ _
+               (is_RInt_Chasles (V := R_NormedModule) f lo a m _ _ I1 I2) I3).
+    + cbn [arcs_length]. unfold plus; simpl. lra.
+Qed.
+
+(* the indicator of a finite union of intervals *)
+Lemma in_arcs_dec l x : {in_arcs l x} + {~ in_arcs l x}.
+Proof.
+  induction l as [|[a b] t IH]; cbn.
+  - right. tauto.
+  - destruct (Rle_dec a x); destruct (Rle_dec x b); destruct IH; (left; lra) || (left; tauto) || (right; lra) || idtac.
+    all: try (left; right; assumption).
+    all: right; intros [C|C]; [lra|tauto].
+Qed.
+
+(* any 0/1 function that is the indicator of P integrates to the measure of P *)
+Theorem arc_measure_is_integral (P : R -> Prop) m (f : R -> R) :
+  has_arc_measure P m ->
+  (forall x, - PI < x < PI -> (P x -> f x = 1) /\ (~ P x -> f x = 0)) ->
+  is_RInt f (- PI) PI m.
+Proof.
+  intros (l & S & Q & E) F. subst m. apply arcs_length_is_integral; auto.
+  intros x Hx. destruct (F x Hx) as [F1 F0]. assert (Hx' : - PI < x <= PI) by lra.
+  split; intro C.
+  - apply F1. apply (Q x Hx'). exact C.
+  - apply F0. intro D. apply C. apply (Q x Hx'). exact D.
+Qed.
+
+(* the measure does not depend on the interval list chosen to describe P *)
+Theorem arc_measure_unique (P : R -> Prop) m m' :
+  has_arc_measure P m -> has_arc_measure P m' -> m = m'.
+Proof.
+  intros H H'. destruct H as (l & S & Q & E).
+  set (f := fun x => if in_arcs_dec l x then 1 else 0).
+  assert (F : forall x, - PI < x < PI -> (P x -> f x = 1) /\ (~ P x -> f x = 0)).
+  { intros x Hx. assert (Hx' : - PI < x <= PI) by lra. unfold f.
+    destruct (in_arcs_dec l x) as [I|I]; split; intro C; auto.
+    - exfalso. apply C. apply (Q x Hx'). exact I.
+    - exfalso. apply I. apply (Q x Hx'). exact C. }
+  assert (I1 : is_RInt f (- PI) PI m).
+  { apply (arc_measure_is_integral P); auto. exists l. auto. }
+  assert (I2 : is_RInt f (- PI) PI m') by (apply (arc_measure_is_integral P); auto).
+  pose proof (is_RInt_unique (V := R_NormedModule) f (- PI) PI m I1) as U1.
+  pose proof (is_RInt_unique (V := R_NormedModule) f (- PI) PI m' I2) as U2.
+  rewrite <- U1. exact U2.
+Qed.
+
+(* ------------------------------------------------------------------ *)
+(* main theorems                                                       *)
+(* ------------------------------------------------------------------ *)
+Theorem arclen_2d_is_measure r hl hr hb ht :
+  0 < r -> 0 <= hl -> 0 <= hr -> 0 <= hb -> 0 <= ht ->
+  exists m, has_arc_measure (dir_inside r hl hr hb ht) m /\ arclen_2d r hl hr hb ht = r * m.
+Proof.
+  intros Hr Hl Hrr Hb Htt. exists (arcs_length (gaps r hl hr hb ht)). split.
+  - exists (gaps r hl hr hb ht). split; [apply gaps_sorted; auto|]. split; auto.
+    intros t Ht. apply dir_inside_iff_gaps; auto.
+  - apply arclen_2d_is_gap_length; auto.
+Qed.
+
+Lemma in_box_dir r cx cy x0 x1 y0 y1 t :
+  in_box x0 x1 y0 y1 (cx + r * cos t) (cy + r * sin t)
+  <-> dir_inside r (cx - x0) (x1 - cx) (cy - y0) (y1 - cy) t.
+Proof. unfold in_box, dir_inside. lra. Qed.
+
+(* box form: centre (cx, cy) anywhere in the closed box, any r > 0 *)
+Theorem arclen_2d_bounded_is_measure r cx cy x0 x1 y0 y1 :
+  0 < r -> in_box x0 x1 y0 y1 cx cy ->
+  exists m,
+    has_arc_measure (fun t => in_box x0 x1 y0 y1 (cx + r * cos t) (cy + r * sin t)) m /\
+    arclen_2d_bounded r cx cy x0 x1 y0 y1 = r * m.
+Proof.
+  intros Hr [[Bx0 Bx1] [By0 By1]]. unfold arclen_2d_bounded.
+  destruct (arclen_2d_is_measure r (cx - x0) (x1 - cx) (cy - y0) (y1 - cy)) as (m & (l & S & Q & E) & A);
+    try lra.
+  exists m. split; auto. exists l. split; auto. split; auto.
+  intros t Ht. rewrite in_box_dir. apply Q. exact Ht.
+Qed.
+
+Lemma box_indicator_spec x0 x1 y0 y1 px py :
+  (in_box x0 x1 y0 y1 px py -> box_indicator x0 x1 y0 y1 px py = 1) /\
+  (~ in_box x0 x1 y0 y1 px py -> box_indicator x0 x1 y0 y1 px py = 0).
+Proof.
+  unfold in_box, box_indicator, ind_le.
+  destruct (Rle_dec x0 px), (Rle_dec px x1), (Rle_dec y0 py), (Rle_dec py y1);
+    split; intro H; try ring; exfalso; tauto.
+Qed.
+
+(* the length of the part of the circle inside the box, as a Riemann integral
+   of the arc-length element r dtheta over the directions inside the box *)
+Theorem arclen_2d_bounded_is_integral r cx cy x0 x1 y0 y1 :
+  0 < r -> in_box x0 x1 y0 y1 cx cy ->
+  is_RInt (fun t => r * box_indicator x0 x1 y0 y1 (cx + r * cos t) (cy + r * sin t))
+          (- PI) PI (arclen_2d_bounded r cx cy x0 x1 y0 y1).
+Proof.
+  intros Hr B. destruct (arclen_2d_bounded_is_measure r cx cy x0 x1 y0 y1 Hr B) as (m & M & A).
+  rewrite A.
+  apply (is_RInt_scal (fun t => box_indicator x0 x1 y0 y1 (cx + r * cos t) (cy + r * sin t)) (- PI) PI r m).
+  apply (arc_measure_is_integral _ m _ M).
+  intros x Hx. apply box_indicator_spec.
+Qed.
+
+(* instances: no wall within reach -> full circle; centre in a corner -> a quarter *)
+Theorem arclen_2d_no_wall r hl hr hb ht :
+  0 < r -> r <= hl -> r <= hr -> r <= hb -> r <= ht -> arclen_2d r hl hr hb ht = 2 * PI * r.
+Proof.
+  intros. rewrite arclen_2d_is_gap_length by lra. unfold gaps, cut_halfwidth. assert (P := PI_RGT_0).
+  repeat match goal with |- context [Rlt_dec ?a ?b] => destruct (Rlt_dec a b); try lra end.
+  cbn [arcs_length]. unfold Rmax.
+  repeat match goal with |- context [Rle_dec ?a ?b] => destruct (Rle_dec a b); try lra end.
+Qed.
+
+Theorem corner_quarter_measure r big :
+  0 < r -> r <= big ->
+  has_arc_measure (fun t => in_box 0 big 0 big (0 + r * cos t) (0 + r * sin t)) (PI / 2).
+Proof.
+  intros Hr Hb.
+  destruct (arclen_2d_bounded_is_measure r 0 0 0 big 0 big Hr) as (m & M & A).
+  { unfold in_box. lra. }
+  unfold arclen_2d_bounded in A.
+  replace (0 - 0) with 0 in A by ring. replace (big - 0) with big in A by ring.
+  rewrite arclen_2d_at_corner in A by assumption.
+  assert (m = PI / 2).
+  { apply Rmult_eq_reg_l with r; lra. }
+  subst m. exact M.
 Qed.
